@@ -1,5 +1,5 @@
 """Per-property policy: which rules decide which clause, floors, scope, wording for the evidence."""
-from . import rules_conv, rules_table, rules_codec, rules_layout, rules_effect, rules_path, rules_reply, rules_cow, rules_node, rules_ref, rules_ident, rules_traits, rules_event
+from . import rules_conv, rules_table, rules_codec, rules_layout, rules_effect, rules_path, rules_reply, rules_cow, rules_node, rules_ref, rules_ident, rules_traits, rules_event, rules_iter
 
 import json, os
 
@@ -342,6 +342,28 @@ PROPS = {
             {"run": rules_reply.run_idwidth, "floor": 8},
             {"run": rules_path.run_nullcontra, "floor": 10, "use_anchor_files": True},
             {"run": rules_path.run_uaf, "floor": 1, "use_anchor_files": True},
+        ],
+    },
+    "C19": {
+        "explanation": "VTABLE: every interface vtable initialiser in the anchor files fills each slot with a function of the slot's arity. NULLDEST: every convert() implementation "
+                       "is analysed with dest == NULL: no dereference of the destination in query mode. ITERPROTO: for each iterator vtable, advance() can report past-the-end "
+                       "(negative) and last-element (0); reset() (and same-file callees) assigns every field advance() changes; a clone() that copies fields itself copies every field "
+                       "value()/advance() read. STRSCAN: loop conditions that read the character under an advancing char pointer are false at NUL (abstract evaluation of the "
+                       "condition with *p = 0). OUTPARAM: at every read of a local result parameter the callee's result, restricted to states where the result variable still "
+                       "holds it (trace partition), excludes the callee's unwritten return class (call-site specialised summaries). ERRPROP on mpt_iterator_consume.",
+        "not_decided": "visited values, closed forms, replay equality of the generated numbers",
+        "assumptions": [],
+        "technique": "vtable resolution from static initialisers + per-slot field read/write sets + interval analysis (query mode, out-parameter summaries) + abstract evaluation at NUL",
+        "level_text": "Protocol-shape clauses of the iterator contract for all 8 iterator kinds in the anchor files: past-the-end is reported, reset restores, descriptions without a number are refused before use.",
+        "level_note": "",
+        "rules": [
+            {"run": rules_iter.run_vtable, "floor": 30, "use_anchor_files": True},
+            {"run": rules_iter.run_nulldest, "floor": 6, "use_anchor_files": True},
+            {"run": rules_iter.run_iterproto, "floor": 12, "use_anchor_files": True},
+            {"run": rules_iter.run_strscan, "floor": 4, "use_anchor_files": True},
+            {"run": rules_iter.run_outparam_tested, "floor": 4, "use_anchor_files": True},
+            {"run": rules_layout.run_errprop, "floor": 100, "scope": "anchors"},
+            {"run": rules_layout.run_convdest, "floor": 60, "scope": "anchors"},
         ],
     },
 }
